@@ -11,7 +11,7 @@ MUTANTS = [
     M("pdf-enumerate-from-zero", X + "pdf/pdf_extractor.py", "in enumerate(candidates, start=1):", "in enumerate(candidates, start=0):", "C14-PAIR"),
     __import__("sa.selftest.harness", fromlist=["Variant"]).Variant("size-measured-before-rewrap", [(X + "ms_legacy/ppt_extractor.py", "        image_data = record.data[header_size:]\n        detected = detect_image_type(image_data)", "        image_data = record.data[header_size:]\n        payload_size = len(image_data)\n        detected = detect_image_type(image_data)"), (X + "ms_legacy/ppt_extractor.py", "                size_bytes=len(image_data),\n                width=width,\n                height=height,\n            )\n        )\n\n    return images\n\n\n# =============================================================================\n# Utility Functions", "                size_bytes=payload_size,\n                width=width,\n                height=height,\n            )\n        )\n\n    return images\n\n\n# =============================================================================\n# Utility Functions")], "C14-BYTES"),
     M("size-of-other-buffer", X + "epub_extractor.py", "                    data=io.BytesIO(data),\n                    size_bytes=len(data),", "                    data=io.BytesIO(data),\n                    size_bytes=len(href),", "C14-BYTES"),
-    M("get-bytes-not-rewound", X + "data_types.py", "    def get_bytes(self) -> io.BytesIO:\n        if self.data is None:\n            return io.BytesIO()\n        self.data.seek(0)\n        return self.data\n\n    def get_content_type(self) -> str:\n        return self.content_type.strip()\n\n    def get_caption(self) -> str:\n        return \"\"", "    def get_bytes(self) -> io.BytesIO:\n        if self.data is None:\n            return io.BytesIO()\n        return self.data\n\n    def get_content_type(self) -> str:\n        return self.content_type.strip()\n\n    def get_caption(self) -> str:\n        return \"\"", "C14-BYTES"),
+    M("get-bytes-not-rewound", X + "data_types.py", "    def get_bytes(self) -> io.BytesIO:\n        if self.data is None:\n            return io.BytesIO()\n        # A fresh stream per call: closing or writing to the returned stream\n        # must not change what the result holds\n        return io.BytesIO(self.data.getvalue())\n\n    def get_content_type(self) -> str:\n        return self.content_type.strip()\n\n    def get_caption(self) -> str:\n        return \"\"", "    def get_bytes(self) -> io.BytesIO:\n        if self.data is None:\n            return io.BytesIO()\n        return self.data\n\n    def get_content_type(self) -> str:\n        return self.content_type.strip()\n\n    def get_caption(self) -> str:\n        return \"\"", "C14-BYTES"),
     M("ppt-units-without-images", X + "data_types.py", "                images=list(slide.images),\n            )\n\n    def get_full_text(self) -> str:\n        \"\"\"Full text of the slide deck", "            )\n\n    def get_full_text(self) -> str:\n        \"\"\"Full text of the slide deck", "C14-VIEW"),
     M("pptx-parent-path-guard", X + "ms_modern/pptx_extractor.py", "                    if normalized:\n                        normalized.pop()", "                    if len(normalized) > 1:\n                        normalized.pop()", "C14-REF"),
     M("jpeg-advance-without-marker", X + "ms_modern/xlsx_extractor.py", "            i += 2 + length", "            i += length", "C14-JPEG"),
